@@ -4,7 +4,8 @@ use crate::common::Rng;
 /// boundary-class token alphabet
 pub fn tokens_full() -> Vec<Vec<u8>> {
     let mut v: Vec<Vec<u8>> = vec![];
-    let strs: [&str; 74] = [
+    let strs: [&str; 80] = [
+        "undef", "UNDINE", "unda", "alalc97", "lojban", "ZZ",
         "", "a", "b", "t", "u", "x", "T", "U", "X", "1", "9", "z",
         "en", "EN", "e1", "1e", "12", "h0", "H0", "ca", "CA", "k1", "t0", "u1", "x1", "nu", "a-",
         "und", "UND", "eng", "e2g", "123", "12a", "a12", "foo", "1a2",
@@ -61,7 +62,18 @@ fn word(rng: &mut Rng, set: &[u8], lo: usize, hi: usize) -> String {
     let n = lo + rng.below(hi - lo + 1);
     (0..n).map(|_| *rng.pick(set) as char).collect()
 }
+/// IANA-registered variant subtags (a representative half of the registry)
+pub const REGISTERED_VARIANTS: [&str; 84] = [
+    "alalc97", "hepburn", "heploc", "jyutping", "pinyin", "wadegile", "arevela", "arevmda", "baku1926", "fonxsamp", "fonipa", "fonupa",
+    "fonnapa", "fonkirsh", "lojban", "gaulish", "guoyu", "hakka", "xiang", "bokmal", "nynorsk", "saaho", "rozaj", "biske", "njiva",
+    "osojs", "solba", "tarask", "scouse", "scotland", "valencia", "monoton", "polyton", "1606nict", "1694acad", "1901", "1996",
+    "1959acad", "1994", "aluku", "ao1990", "bauddha", "boont", "bornholm", "cisaup", "colb1945", "cornu", "creiss", "dajnko",
+    "ekavsk", "emodeng", "hognorsk", "hsistemo", "ijekavsk", "itihasa", "ivanchov", "jauer", "kkcor", "kociewie", "kscor",
+    "laukika", "lemosin", "lengadoc", "lipaw", "luna1918", "metelko", "ndyuka", "nedis", "newfound", "nicard", "nulik",
+    "oxendict", "pahawh2", "pamaka", "peano", "petr1708", "provenc", "puter", "rigik", "simple", "tongyong", "ulster", "unifon", "posix",
+];
 pub fn rand_lang(rng: &mut Rng) -> String {
+    if rng.chance(1, 40) { return rng.pick(&["undef", "undine", "undulate", "undergo", "art", "cel", "no", "aa", "hy", "sgn", "yue", "jbo"]).to_string(); }
     match rng.below(10) {
         0 => "und".into(),
         1 => word(rng, ALPHA, 5, 8),
@@ -70,9 +82,11 @@ pub fn rand_lang(rng: &mut Rng) -> String {
     }
 }
 pub fn rand_script(rng: &mut Rng) -> String {
+    if rng.chance(1, 30) { return rng.pick(&["Zzzz", "Zyyy", "Zinh", "Qaaa"]).to_string(); }
     if rng.chance(1, 2) { rng.pick(&["Latn", "Cyrl", "Arab", "Hant", "Hans", "Hebr", "Mong"]).to_string() } else { word(rng, ALPHA, 4, 4) }
 }
 pub fn rand_region(rng: &mut Rng) -> String {
+    if rng.chance(1, 30) { return rng.pick(&["ZZ", "XK", "QO", "AA", "XA", "QM", "EU", "UN"]).to_string(); }
     match rng.below(4) {
         0 => word(rng, DIGIT, 3, 3),
         1 => rng.pick(&["US", "GB", "RS", "CN", "TW", "IR", "419", "001"]).to_string(),
@@ -80,6 +94,7 @@ pub fn rand_region(rng: &mut Rng) -> String {
     }
 }
 pub fn rand_variant(rng: &mut Rng) -> String {
+    if rng.chance(1, 5) { return rng.pick(&REGISTERED_VARIANTS).to_string(); }
     match rng.below(5) {
         0 => format!("{}{}", word(rng, DIGIT, 1, 1), word(rng, ALNUM, 3, 3)),
         1 => rng.pick(&["valencia", "macos", "posix", "fonipa", "1996", "1901", "nedis", "rozaj"]).to_string(),
@@ -194,9 +209,13 @@ pub fn wf_long_locale_tokens(rng: &mut Rng) -> Vec<String> {
     let mut t = vec![rand_lang(rng)];
     if rng.chance(1, 2) { t.push(rand_script(rng)); }
     if rng.chance(1, 2) { t.push(rand_region(rng)); }
+    let v0 = t.len();
     for _ in 0..(4 + rng.below(30)) { t.push(rand_variant(rng)); }
+    // repeats of earlier entries at later positions (also beyond the 16th / 32nd entry)
+    if rng.chance(1, 2) { for _ in 0..(1 + rng.below(3)) { let d = t[v0 + rng.below(t.len() - v0)].clone(); t.push(d); } }
     let mut u: Vec<String> = vec!["u".into()];
     for _ in 0..(3 + rng.below(25)) { u.push(rand_attr(rng)); }
+    if rng.chance(1, 2) { for _ in 0..(1 + rng.below(3)) { let d = u[1 + rng.below(u.len() - 1)].clone(); u.push(d); } }
     let mut keys: Vec<String> = vec![];
     for _ in 0..(3 + rng.below(20)) {
         let k = rand_ukey(rng);
